@@ -3,9 +3,10 @@
 
    What is modelled, following the Rust code:
    * `format_escaped_str_contents` (serde_json/src/ser.rs): a byte-wise table
-     lookup ESCAPE[byte]: '"' -> \" , '\' -> \\ , 0x08 \b, 0x09 \t, 0x0A \n,
+     lookup ESCAPE[byte]: quote (0x22) -> backslash quote, backslash (0x5C) ->
+     two backslashes, 0x08 \b, 0x09 \t, 0x0A \n,
      0x0C \f, 0x0D \r, every other byte < 0x20 -> \u00XX with LOWERCASE hex
-     digits (HEX_DIGITS = "0123456789abcdef"), everything else (incl. 0x7F and
+     digits (HEX_DIGITS = 0123456789abcdef), everything else (incl. 0x7F and
      all bytes >= 0x80, i.e. every non-ASCII UTF-8 sequence) is copied raw.
      The run/fragment batching of the real loop only groups writes; the byte
      stream is the concatenation, which is what `escape` produces.
@@ -14,11 +15,11 @@
      concatenated text.
    * `#[derive(Serialize)] struct Message`: fields in declaration order
      time, level, message, [module_path], [file], [line], target, thread,
-     thread_id, mdc; `skip_serializing_if = "Option::is_none"` on the three
+     thread_id, mdc; `skip_serializing_if = Option::is_none` on the three
      optionals; `thread: Option<&str>` without skip -> `null` when absent;
      `Level` serialises as its upper-case name (unit variant); u32/usize as
      decimal digits (itoa); compact separators `,` and `:`; `Mdc` serialises a
-     map in log_mdc's iteration order; then `NEWLINE` ("\n" on unix).
+     map in log_mdc's iteration order; then `NEWLINE` (one byte 0x0A on unix).
 
    External things that are parameters of the model (supplied by the harness
    per case): the RFC 3339 time text chrono rendered for Local::now(), the
@@ -38,7 +39,7 @@ Definition bytes := list N.
 Definition hex_digit (n : N) : N := if n <? 10 then 48 + n else 87 + n.
 
 Definition escape_byte (b : N) : bytes :=
-  if b =? 34 then [92; 34]                 (* QU  \"  *)
+  if b =? 34 then [92; 34]                 (* QU  backslash quote *)
   else if b =? 92 then [92; 92]            (* BS  \\  *)
   else if b =? 8 then [92; 98]             (* BB  \b  *)
   else if b =? 9 then [92; 116]            (* TT  \t  *)
@@ -69,7 +70,7 @@ Definition dec (n : N) : bytes :=
 
 Inductive level := Error | Warn | Info | Debug | Trace.
 
-(* "ERROR" "WARN" "INFO" "DEBUG" "TRACE" *)
+(* ERROR WARN INFO DEBUG TRACE *)
 Definition level_name (l : level) : bytes :=
   match l with
   | Error => [69; 82; 82; 79; 82]
